@@ -33,7 +33,7 @@ class Val:
         return f"(pat {self.seed} {self.n})" if self.seed >= 0 else f"(zeros {self.n})"
 
 
-def gen_history(rng, nh=3, maxlen=25, crash=False, big=False):
+def gen_history(rng, nh=3, maxlen=25, crash=False, big=False, views=False):
     """Disciplined random history (as python tuples).  Mostly-valid stream: ops go to open handles with
     probability 0.85 (reads to any open handle, puts to the writer), the rest exercise the error paths
     (ops on closed handles, puts through readers)."""
@@ -59,26 +59,37 @@ def gen_history(rng, nh=3, maxlen=25, crash=False, big=False):
                 continue
             if (not w) and any(state[j] == "a" for j in range(nh) if j != i):
                 continue
-            ops.append(("open", i, "a" if w else "r"))
+            ops.append(("open", i, "a" if w else "r") + (("enter",) if views and rng.random() < 0.3 else ()))
             if state[i] == "closed":
                 state[i] = "a" if w else "r"
             continue
         if r < 0.40:
             i = rng.choice(open_hs) if rng.random() < 0.85 else rng.randrange(nh)
-            ops.append(("close", i)); state[i] = "closed"
+            ops.append(("close", i) + (("exit",) if views and rng.random() < 0.4 else ())); state[i] = "closed"
             continue
-        kind = rng.choice(["put", "put", "put", "get", "get", "keys"])
+        if views and r < 0.46:
+            # a pickled copy of a closed handle object replaces another closed handle (what multiprocessing does)
+            cl = [j for j in range(nh) if state[j] == "closed"]
+            if len(cl) >= 2:
+                i, j = rng.sample(cl, 2)
+                ops.append(("dup", i, j))
+            continue
+        kind = rng.choice(["put", "put", "put", "get", "get", "keys"] + (["items", "values", "keys"] if views else []))
+        if kind in ("items", "values"):
+            i = rng.choice(open_hs) if rng.random() < 0.9 else rng.randrange(nh)
+            ops.append((kind, i))
+            continue
         if kind == "put":
             i = writer[0] if writer and rng.random() < 0.85 else rng.randrange(nh)
             fresh = [x for x in KEYS if x not in tried]
             k = rng.choice(fresh) if fresh and rng.random() < 0.75 else rng.choice(KEYS)
             tried.append(k)
             l = rng.choice(VLENS + ([70000] if big and rng.random() < 0.1 else []))
-            ops.append(("put", i, k, Val(rng.randrange(256) if rng.random() < 0.8 else -1, l)))
+            ops.append(("put", i, k, Val(rng.randrange(256) if rng.random() < 0.8 else -1, l)) + (("item",) if views and rng.random() < 0.4 else ()))
         else:
             i = rng.choice(open_hs) if rng.random() < 0.85 else rng.randrange(nh)
             gk = rng.choice(tried) if tried and rng.random() < 0.75 else rng.choice(KEYS)
-            ops.append((kind, i, gk) if kind == "get" else ("keys", i))
+            ops.append(((kind, i, gk) + (("item",) if views and rng.random() < 0.4 else ())) if kind == "get" else ("keys", i))
     return ops
 
 
@@ -93,6 +104,12 @@ def op_coq(o, crash_n=None):
         return f"Get {o[1]} {cq_bytes(o[2])}"
     if o[0] == "keys":
         return f"Keys {o[1]}"
+    if o[0] == "items":
+        return f"V:VItems {o[1]}"
+    if o[0] == "values":
+        return f"V:VValues {o[1]}"
+    if o[0] == "dup":
+        return f"V:VDup {o[1]} {o[2]}"
     return f"Crash {crash_n}"
 
 
@@ -172,7 +189,10 @@ def drive(path, ops, nh=3, h1=None, h2=b"", b0=b"", init_bytes=None):
                     fresh = True
                 else:
                     fresh = hs[i].closed
-                    hs[i].open(m)
+                    if len(o) > 3 and o[3] == "enter" and hs[i].mode == m:
+                        hs[i].__enter__()           # `with h:` spelling
+                    else:
+                        hs[i].open(m)
             except Exception as e:              # opening a library must not fail, whatever a crash left behind
                 viol.append((f"C02:open:raised:{type(e).__name__}",
                              f"open({m}) of handle {i} raised {type(e).__name__}: {str(e)[:80]} (file of {os.path.getsize(path)} bytes)"))
@@ -195,9 +215,21 @@ def drive(path, ops, nh=3, h1=None, h2=b"", b0=b"", init_bytes=None):
             cops.append(op_coq(o)); res.append("ROk")
             continue
         if kind == "close":
-            if hs[i] is None:
-                continue                       # no object: nothing to close (op dropped from the history)
-            hs[i].close()
+            if hs[i] is None or not hasattr(hs[i], "_stream"):
+                continue                       # no object, or a pickled copy that was never opened: nothing to close (op dropped)
+            if len(o) > 2 and o[2] == "exit":
+                hs[i].__exit__(None, None, None)
+            else:
+                hs[i].close()
+            cops.append(op_coq(o)); res.append("ROk")
+            continue
+        if kind == "dup":
+            j = o[2]
+            if hs[i] is None or not hs[i].closed or (hs[j] is not None and not hs[j].closed):
+                continue                       # only closed handle objects are copied (op dropped otherwise)
+            import pickle
+            hs[j] = pickle.loads(pickle.dumps(hs[i]))
+            view[j] = None if view[i] is None else set(view[i])
             cops.append(op_coq(o)); res.append("ROk")
             continue
         if hs[i] is None:
@@ -207,7 +239,10 @@ def drive(path, ops, nh=3, h1=None, h2=b"", b0=b"", init_bytes=None):
             k, v = o[2], o[3]
             views_before = [None if x is None else all_keys(x) for x in hs]
             try:
-                h.put(k, v.b)
+                if len(o) > 4 and o[4] == "item":
+                    h[k] = v.b
+                else:
+                    h.put(k, v.b)
                 r = "ROk"
             except UnsupportedOperation:
                 r = "(RErr EUnsupported)"
@@ -235,7 +270,7 @@ def drive(path, ops, nh=3, h1=None, h2=b"", b0=b"", init_bytes=None):
         elif kind == "get":
             k = o[2]
             try:
-                val = h.get(k)
+                val = h[k] if len(o) > 3 and o[3] == "item" else h.get(k)
                 r = "(RVal " + (cq_bytes(val) if len(val) <= 24 else _name_val(val)) + ")"
             except UnsupportedOperation:
                 val, r = None, "(RErr EUnsupported)"
@@ -248,6 +283,25 @@ def drive(path, ops, nh=3, h1=None, h2=b"", b0=b"", init_bytes=None):
                     viol.append(("C02:get:wrong-bytes", f"get({k[:8]!r}) returned {len(val)} bytes that are not the bytes of the one successful put"))
             elif not h.closed and k in view[i]:
                 viol.append(("C02:get:listed-key-unreadable", f"get({k[:8]!r}) failed with {r} although the key is listed"))
+            cops.append(op_coq(o)); res.append(r)
+        elif kind in ("items", "values"):
+            try:
+                got = list(h.items()) if kind == "items" else list(h.values())
+            except Exception as e:
+                got = None
+            if got is None:
+                r = "V:VRFail"
+                if not h.closed:
+                    viol.append((f"C02:{kind}:raised", f"{kind}() of open handle {i} raised although every listed key must be readable"))
+            elif kind == "items":
+                r = "V:(VRItems [" + "; ".join(f"({cq_bytes(k)}, {cq_bytes(v) if len(v) <= 24 else _name_val(v)})" for k, v in got) + "])"
+                if not h.closed and (dict(got) != model or len(got) != len(model)):
+                    viol.append(("C02:items:differs", f"items() of open handle {i} is not exactly the successfully put (key, bytes) pairs "
+                                 f"({len(got)} pairs, {len(model)} puts)"))
+            else:
+                r = "V:(VRVals [" + "; ".join(cq_bytes(v) if len(v) <= 24 else _name_val(v) for v in got) + "])"
+                if not h.closed and sorted(got) != sorted(model.values()):
+                    viol.append(("C02:values:differs", f"values() of open handle {i} are not exactly the bytes of the successful puts"))
             cops.append(op_coq(o)); res.append(r)
         elif kind == "keys":
             ks = list(h.keys())
@@ -302,6 +356,17 @@ def case_coq(d, nh):
             f"([{'; '.join(d['results'])}], {bytes_coq(d['final'], bof)}))")
 
 
+def vcase_coq(d, nh):
+    """Case over the extended operation set (Model/UKVViews.v): base ops wrapped in VBase / VR."""
+    bof = 32 + struct.unpack(">16sHI10x", d["init"][:32])[1] + struct.unpack(">16sHI10x", d["init"][:32])[2]
+    ops = [o[2:] if o.startswith("V:") else f"VBase ({o})" for o in d["ops"]]
+    rs = [r[2:] if r.startswith("V:") else f"VR {r}" for r in d["results"]]
+    return (f"(({bytes_coq(d['init'], bof)}, {nh}%nat, [{'; '.join(ops)}]), "
+            f"([{'; '.join(rs)}], {bytes_coq(d['final'], bof)}))")
+
+
+HEADER_V = ("From Coq Require Import NArith List.\nImport ListNotations.\n"
+            "From Molli Require Import Model.UKV Model.UKVViews.\nOpen Scope N_scope.\n")
 HEADER = "From Coq Require Import NArith List.\nImport ListNotations.\nFrom Molli Require Import Model.UKV.\nOpen Scope N_scope.\n"
 
 
@@ -314,15 +379,22 @@ HEADER_B = ("From Coq Require Import NArith ZArith List.\nImport ListNotations.\
             "From Molli Require Import Model.UKV Model.Backend.\nOpen Scope N_scope.\n")
 
 
-def gen_chistory(rng, cfg, maxlen=30):
+def gen_chistory(rng, cfg, maxlen=30, views=True):
     """Sessions never overlap a writing session (the lock is per process: overlapping sessions of one
     process are outside the claim).  Mostly-valid stream + error stream (ops outside sessions, puts through
     read-only collections / reading sessions, duplicate and oversize keys)."""
     nh = len(cfg)
+    cfg = list(cfg)                     # local belief about (bufsize, readonly) per slot; a pickled copy moves it
     ops, sess = [], [None] * nh
     tried = []
     n = rng.randint(2, maxlen)
     while len(ops) < n:
+        if views and nh >= 2 and rng.random() < 0.04:
+            idle = [i for i in range(nh) if not sess[i]]
+            if len(idle) >= 2:
+                i, j = rng.sample(idle, 2)
+                ops.append(("dup", i, j)); cfg[j] = cfg[i]
+                continue
         active = [i for i in range(nh) if sess[i]]
         writer = [i for i in range(nh) if sess[i] == "w"]
         r = rng.random()
@@ -347,7 +419,19 @@ def gen_chistory(rng, cfg, maxlen=30):
             ops.append(("endw" if sess[i] == "w" else "endr", i)); sess[i] = None
             continue
         i = (writer[0] if writer and rng.random() < 0.8 else rng.choice(active)) if rng.random() < 0.9 else rng.randrange(nh)
-        kind = rng.choice(["put", "put", "put", "get", "get", "keys", "flush"])
+        kind = rng.choice(["put", "put", "put", "get", "get", "keys", "flush"] + (["contains", "len", "items", "values"] if views else []))
+        if kind in ("items", "values"):
+            if not sess[i]:
+                continue                # the generators are consumed inside sessions only (outside, the order in which a set is
+                                        # iterated decides whether a failing flush happens before or after a failing read)
+            ops.append((kind, i))
+            continue
+        if kind == "contains":
+            ops.append(("contains", i, rng.choice(tried) if tried and rng.random() < 0.7 else rng.choice(CKEYS), rng.randrange(2)))
+            continue
+        if kind == "len":
+            ops.append(("len", i, rng.randrange(3)))
+            continue
         if kind == "put":
             fresh = [x for x in CKEYS if x not in tried]
             k = rng.choice(fresh) if fresh and rng.random() < 0.7 else rng.choice(CKEYS)
@@ -406,6 +490,16 @@ def bop_coq(o):
         return {"beginw": "BeginW", "endw": "EndW", "beginr": "BeginR", "endr": "EndR", "keys": "CKeys", "flush": "CFlush"}[k] + f" {o[1]}"
     if k == "put":
         return f"CPut {o[1]} {cq_bytes(o[2].encode())} {o[3].coq()}"
+    if k == "contains":
+        return f"CContains {o[1]} {cq_bytes(o[2].encode())}"
+    if k == "len":
+        return f"CLen {o[1]}"
+    if k == "items":
+        return f"CItems {o[1]}"
+    if k == "values":
+        return f"CValues {o[1]}"
+    if k == "dup":
+        return f"CDup {o[1]} {o[2]}"
     return f"CGet {o[1]} {cq_bytes(o[2].encode())}"
 
 
@@ -422,6 +516,7 @@ def cdrive(path, ops, cfg, fault=None):
     bof = len(init)
     cols = [Collection(path, UkvCollectionBackend, readonly=ro, bufsize=bs) for bs, ro in cfg]
     cms = [None] * len(cfg)
+    all_cols = []         # collection objects replaced by a pickled copy (their queues are cleared at the end too)
     res, cops, viol = [], [], []
     model = {}            # oracle: abstract map, maintained while every put is written through immediately
     exact = True          # False once a put was left in a buffer (oracle then only checks the final file)
@@ -458,7 +553,9 @@ def cdrive(path, ops, cfg, fault=None):
                 listed_before = set(c.keys())
                 c[o[2]] = o[3].b
                 r = "BOk"
-                if cms[i] is None:
+                if cms[i] is None or be._state != "writing":
+                    # outside a session, or buffered inside a READING session (it can only fail, late, at the flush):
+                    # not a put the insert-only map ever accepted
                     tainted.add(o[2])
                 else:
                     accepted.setdefault(o[2], o[3].b)
@@ -490,12 +587,51 @@ def cdrive(path, ops, cfg, fault=None):
                                  f"get({o[2][:8]!r}) returned {len(v)} bytes that are not the bytes of the first accepted put of that key "
                                  f"({len(accepted[o[2]])} bytes): the value of a later, doomed put was served"))
             elif k == "keys":
-                ks = sorted(c.keys())
+                ks = sorted(c.keys()) if len(cops) % 2 == 0 else sorted(iter(c))       # iter(c) is the other spelling of the listing
                 r = "(BKeys [" + ";".join(cq_bytes(x.encode()) for x in ks) + "])"
                 if exact and cms[i] is not None and set(ks) != set(model):
                     viol.append(("C02:collection:listing-differs", f"handle {i} lists {ks[:5]} inside a session, successfully put keys are {sorted(model)[:5]}"))
             elif k == "flush":
                 c.flush(); r = "BOk"
+            elif k == "contains":
+                ans = (o[2] in c) if o[3] == 0 else (o[2] in be)
+                r = f"(BBool {'true' if ans else 'false'})"
+                if ans != (o[2] in c.keys()):
+                    viol.append(("C02:collection:contains-differs", f"`{o[2][:8]!r} in collection` is {ans} but the key listing says otherwise"))
+                if exact and cms[i] is not None and ans != (o[2] in model):
+                    viol.append(("C02:collection:contains-differs", f"`{o[2][:8]!r} in collection` is {ans}; successfully put keys are {sorted(model)[:5]}"))
+            elif k == "len":
+                nn = len(c) if o[2] == 0 else c.n_items if o[2] == 1 else len(be)
+                r = f"(BNum {nn})"
+                if nn != len(set(c.keys())) or (exact and cms[i] is not None and nn != len(model)):
+                    viol.append(("C02:collection:len-differs", f"len/n_items = {nn}, the listing has {len(set(c.keys()))} keys, {len(model)} successful puts"))
+            elif k in ("items", "values"):
+                fkeys = {x.decode() for x in be._ukvfile.keys()} if hasattr(be, "_ukvfile") else set()
+                qk = [x for x, _ in be._write_queue]
+                doomed = any(x in fkeys or len(x.encode()) > 255 for x in qk) or len(set(qk)) != len(qk)
+                listed = set(c.keys())
+                try:
+                    got = list(c.items()) if k == "items" else list(c.values())
+                except Exception as e:
+                    if be._state == "writing" and not doomed:
+                        viol.append((f"C02:collection:{k}-raised", f"{k}() raised {type(e).__name__} inside a writing session although every listed key must be readable"))
+                    raise
+                cqv = lambda v: cq_bytes(v) if len(v) <= 24 else _name_val(v)
+                if k == "items":
+                    r = "(BItems [" + "; ".join(f"({cq_bytes(a.encode())}, {cqv(v)})" for a, v in got) + "])"
+                    if {a for a, _ in got} != listed or len(got) != len(listed):
+                        viol.append(("C02:collection:items-differ", f"items() yields keys {sorted(a for a, _ in got)[:5]} but the listing is {sorted(listed)[:5]}"))
+                    if exact and be._state == "writing" and dict(got) != model:
+                        viol.append(("C02:collection:items-differ", "items() is not exactly the successfully put (key, bytes) pairs"))
+                else:
+                    r = "(BVals [" + "; ".join(cqv(v) for v in got) + "])"
+                    if len(got) != len(listed) or (exact and be._state == "writing" and sorted(got) != sorted(model.values())):
+                        viol.append(("C02:collection:values-differ", "values() are not exactly the bytes of the successful puts"))
+            elif k == "dup":
+                import pickle
+                j = o[2]
+                all_cols.append(cols[j])
+                cols[j] = pickle.loads(pickle.dumps(c)); cms[j] = None; r = "BOk"
         except Exception as e:
             r = classify(e)
             if k == "put" and exact and cms[i] is not None:      # use outside a session is outside the claim
@@ -510,7 +646,7 @@ def cdrive(path, ops, cfg, fault=None):
                 cm.__exit__(None, None, None)
             except Exception:
                 pass
-    for c in cols:
+    for c in cols + all_cols:
         c._backend._write_queue.clear()       # nothing may be flushed by the atexit hook after the observation
     final = open(path, "rb").read()
     if final[:bof] != init:
